@@ -63,6 +63,11 @@ def _parse_fmt(f):
             continue
         if ch.isspace():
             continue
+        if ch in 'sx':
+            # 'Ns' = one bytes item of N bytes; 'Nx' = N pad bytes
+            codes.append((ch, _rint(num) if num else 1))
+            num = ''
+            continue
         if ch not in _SIZES:
             raise EngineLeak("struct format char %r" % ch)
         codes.extend([ch] * (_rint(num) if num else 1))
@@ -70,20 +75,37 @@ def _parse_fmt(f):
     return order, codes
 
 
+def _csize(c):
+    return c[1] if isinstance(c, tuple) else _SIZES[c][0]
+
+
 class _StructError(_struct.error):
     pass
 
 
 def s_calcsize(f):
-    return sum(_SIZES[c][0] for c in _parse_fmt(f)[1])
+    return sum(_csize(c) for c in _parse_fmt(f)[1])
 
 
 def s_pack(f, *vals):
     order, codes = _parse_fmt(f)
-    if len(vals) != len(codes):
-        raise _struct.error("pack expected %d items for packing (got %d)" % (len(codes), len(vals)))
+    nvals = len([c for c in codes if not (isinstance(c, tuple) and c[0] == 'x')])
+    if len(vals) != nvals:
+        raise _struct.error("pack expected %d items for packing (got %d)" % (nvals, len(vals)))
     out = []
-    for c, v in zip(codes, vals):
+    vals = list(vals)
+    for c in codes:
+        if isinstance(c, tuple):
+            if c[0] == 'x':
+                out.extend([0] * c[1])
+                continue
+            v = vals.pop(0)
+            if not _is_byteslike(v):
+                raise _struct.error("argument for 's' must be a bytes object")
+            it = list(_items(v))[:c[1]]
+            out.extend(it + [0] * (c[1] - len(it)))
+            continue
+        v = vals.pop(0)
         size, signed = _SIZES[c]
         if c == 'c':
             if not _is_byteslike(v) or len(v) != 1:
@@ -123,12 +145,17 @@ def s_pack(f, *vals):
 def s_unpack(f, data):
     order, codes = _parse_fmt(f)
     d = _items(data)
-    total = sum(_SIZES[c][0] for c in codes)
+    total = sum(_csize(c) for c in codes)
     if len(d) != total:
         raise _struct.error("unpack requires a buffer of %d bytes" % total)
     res = []
     p = 0
     for c in codes:
+        if isinstance(c, tuple):
+            if c[0] == 's':
+                res.append(VBytes._mk(d[p:p + c[1]]))
+            p += c[1]
+            continue
         size, signed = _SIZES[c]
         chunk = d[p:p + size]
         p += size
